@@ -49,11 +49,14 @@ m("poly_contains_strict", "C14 C05", AF, "            .all(|x| x >= A::from(-1e-
 m("poly_chebyshev_radius_sign", "C10", AF, "        radius[[0, mat.len_of(Axis(1)) - 1]] = -A::one();", "        radius[[0, mat.len_of(Axis(1)) - 1]] = A::one();")
 m("poly_chebyshev_no_norm", "C10", AF, "            norm[[idx, 0]] = row.map(|x: &A| x.powi(2)).sum().sqrt();", "            norm[[idx, 0]] = row.map(|x: &A| x.powi(2)).sum();")
 # --- linalg/polyhedron.rs
-m("lp_ge_instead_of_le", "C10 C06", PH, "ComparisonOp::Le, *bias);", "ComparisonOp::Ge, *bias);")
-m("lp_nonneg_variables", "C10 C03 C06", PH, "pb.add_var(*x, (f64::NEG_INFINITY, f64::INFINITY))", "pb.add_var(*x, (0.0, f64::INFINITY))")
-m("lp_unbounded_as_infeasible", "C10", PH, "            Err(minilp::Error::Unbounded) => PolytopeStatus::Unbounded,", "            Err(minilp::Error::Unbounded) => PolytopeStatus::Infeasible,")
-m("lp_redundancy_test_reversed", "C15", PH, "                    if val <= bound + f64::EPSILON {", "                    if val >= bound + f64::EPSILON {")
+m("lp_ge_instead_of_le", "C10 C06", PH, "ComparisonOp::Le, *bias / scale);", "ComparisonOp::Ge, *bias / scale);")
+m("lp_nonneg_variables", "C10 C03 C06", PH, "pb.add_var(*x / cost_scale, (f64::NEG_INFINITY, f64::INFINITY))", "pb.add_var(*x / cost_scale, (0.0, f64::INFINITY))")
+m("lp_unbounded_as_infeasible", "C10", PH, "            Ok(Err(minilp::Error::Unbounded)) => PolytopeStatus::Unbounded,", "            Ok(Err(minilp::Error::Unbounded)) => PolytopeStatus::Infeasible,")
+m("lp_redundancy_test_reversed", "C15", PH, "                    if val <= bound + f64::EPSILON * row_scale {", "                    if val >= bound + f64::EPSILON * row_scale {")
 m("lp_redundancy_costs_not_negated", "C15", PH, "let status = poly.solve_linprog(-costs.clone(), false);", "let status = poly.solve_linprog(costs.clone(), false);")
+m("lp_row_scale_without_abs", "C10 C03", PH, "let scale = unit_scale(row.iter().fold(0f64, |acc, x| acc.max(x.abs())));", "let scale = unit_scale(row.iter().fold(0f64, |acc, x| acc.max(*x)));")
+m("lp_backend_panic_as_infeasible", "C04 C11", PH, "            Err(_) => PolytopeStatus::Error(\"LP backend panicked while solving\".to_string()),", "            Err(_) => PolytopeStatus::Infeasible,")
+m("elim_heuristic_points_unfiltered", "C05 C04", IE, "                        .filter(|point| poly.contains(point))\n", "")
 # --- formatter
 m("fmt_tautology_symbols_swapped", "C19", FM, "        if bias >= 0.0 {\n            return write!(f, \"{}\", TRUE);\n        } else {\n            return write!(f, \"{}\", FALSE);\n        }", "        if bias >= 0.0 {\n            return write!(f, \"{}\", FALSE);\n        } else {\n            return write!(f, \"{}\", TRUE);\n        }")
 m("fmt_skip_on_index_not_position", "C19", FM, "    for (no, (pos, (idx, coeff))) in elements.into_iter().with_position().enumerate() {\n        if options.skip_axes.contains(&(no as i32)) {", "    for (_no, (pos, (idx, coeff))) in elements.into_iter().with_position().enumerate() {\n        if options.skip_axes.contains(&(idx as i32)) {")
